@@ -284,6 +284,10 @@ structure PBlock where
   onOwn : Bool
   /-- local (i, j) of the observed child-locator sites, in child / pin order -/
   pins : List (Int × Int)
+  /-- `b.p.orientation[2]` in degrees -/
+  orient : Int
+  /-- the values of the CORNERS / EDGES block parameters that are lists / arrays (`[]` for unset ones), by name -/
+  bnd : List (List Rat)
 deriving DecidableEq, Repr
 
 abbrev Sub := List (Int × List PBlock)
@@ -300,13 +304,17 @@ def renObj (new : Int) (o : Obj) : Obj := (new, o.2)
 `Block.__deepcopy__` registers the new block in the memo first and deep-copies the state, so every object below the
 block is new and references among them are kept; `Composite.__setstate__` then sets `spatialGrid.armiObject = self`
 and associates every child locator with the copy's lattice; `_rotateChildLocations` maps every site through
-`rotateIndex(rotNum)` and returns at once for a block without lattice. -/
+`rotateIndex(rotNum)` and returns at once for a block without lattice; `HexBlock.rotate` then adds `rotNum·60` to the
+orientation and `_rotateBoundaryParameters(rotNum)` pivots every 6-long corner / edge vector by the number of steps of
+THIS turn (`Hex.rotBoundary`), whatever the orientation was before. -/
 def copyBlock (new rotNum : Int) (b : PBlock) : PBlock :=
   { self := renObj new b.self
     grid := b.grid.map (renObj new)
     owner := if b.grid.isSome then some (renObj new b.self) else none
     onOwn := b.grid.isSome || b.onOwn
-    pins := if b.grid.isSome then b.pins.map (rotateIndex rotNum) else b.pins }
+    pins := if b.grid.isSome then b.pins.map (rotateIndex rotNum) else b.pins
+    orient := b.orient + rotNum * 60
+    bnd := b.bnd.map (rotBoundary rotNum) }
 
 /-- inner loop of `convert` (see `mkCopies`): `newAssem.rotate(count * 2π/3)`, i.e. `rotNum = 2·count` -/
 def subCopies (sub : Sub) (a : Assem) : Int → Int → List Cell → Sub
